@@ -19,6 +19,7 @@ import Pyro5.errors as E
 from Pyro5.callcontext import current_context as cctx
 
 PYRO_KEYS = {"STRM", "BLBI"}
+DAEMON_KEY, DAEMON_VAL = "DMON", b"daemon-wide"
 
 
 @api.expose
@@ -95,12 +96,14 @@ class CtxWorld(World):
     STUB = ["sockets/selector (in-memory) with recording middlebox", "threads (baton scheduler, line pre-emption in handleRequest)",
             "time (virtual clock)", "uuid4 (seeded)"]
     PROBES = ["raise_after_set", "oneway_mutate", "worker_reuse", "handshake_after_raise", "batch", "ping", "prop",
-              "assign_idiom", "mutate_idiom", "multiplex", "thread", "preempted", "pool_full_retry", "oneway_delayed", "reply_reset_then_reconnect", "bad_handshake", "peer_address_unavailable", "reset_after_oneway_request"]
+              "assign_idiom", "mutate_idiom", "multiplex", "thread", "preempted", "pool_full_retry", "oneway_delayed", "reply_reset_then_reconnect", "bad_handshake", "peer_address_unavailable", "reset_after_oneway_request",
+              "daemon_annotations_hook"]
     RULE = ("plan = (server type, pool size 1-2, serializer, 2-3 clients x 1-2 sessions x 1-5 calls of kinds "
             "ret/boom/ow/plain/batch/prop/ping, each with a unique annotation key set by assignment or mutation, "
             "pre-emption probabilities); distinct = distinct interleaving digest; non-trivial = at least two clients' "
             "calls were served and at least one method set a response annotation")
-    ASSUMPTIONS = ["Daemon.annotations() is not overridden (its keys would legitimately appear on every reply)",
+    ASSUMPTIONS = ["30% of the plans override Daemon.annotations() (returning one fixed key from a dict the daemon keeps, or from a "
+                   "fresh dict): that key with that value is legitimate on every server message and is ignored by the oracle",
                    "Pyro's own annotation keys (STRM, BLBI) are not 'custom'",
                    "sending a raising method's annotations with its own error reply, or not at all, are both allowed"]
     QUICK_RUNS = 8000
@@ -133,9 +136,14 @@ class CtxWorld(World):
                 # a handshake that fails while the daemon is still receiving the connect message, right after a session
                 bad = {"before": rng.randint(1, len(sessions)), "kind": rng.choice(["wrongtype", "badversion", "oversize", "annmismatch"])}
             clients.append({"sessions": sessions, "corr": rng.random() < 0.6, "start": rng.choice([0, 0, 0.01, 0.05]), "bad_hs": bad})
-        return {"servertype": servertype, "pool": [1, rng.randint(1, 2)], "serializer": rng.choice(SERIALIZERS),
+        plan = {"servertype": servertype, "pool": [1, rng.randint(1, 2)], "serializer": rng.choice(SERIALIZERS),
                 "clients": clients, "p_line": rng.choice([0.0, 0.01, 0.03]) if servertype == "thread" else 0.0,
                 "p_block": rng.choice([0.0, 0.3, 0.7, 1.0]), "net": {"shuffle_select": rng.random() < 0.5}}
+        if rng.random() < 0.3:
+            # the application overrides Daemon.annotations(): its own key travels with every reply, from a dict the
+            # daemon keeps ("persistent") or builds per call ("fresh")
+            plan["daemon_ann"] = rng.choice(["persistent", "fresh"])
+        return plan
 
     def line_codes(self, plan):
         return _codes() if plan["servertype"] == "thread" else ()
@@ -179,7 +187,18 @@ class CtxWorld(World):
 
         install_script(net, c2s, s2c)
 
-        daemon = SV.Daemon(host="127.0.0.1", port=0)
+        dmode = plan.get("daemon_ann")
+
+        class AnnDaemon(SV.Daemon):
+            extra = {DAEMON_KEY: DAEMON_VAL}
+
+            def annotations(self):
+                return self.extra if dmode == "persistent" else dict(self.extra)
+
+        if dmode:
+            ctx.probe("daemon_annotations_hook")
+            AnnDaemon.extra = {DAEMON_KEY: DAEMON_VAL}
+        daemon = (AnnDaemon if dmode else SV.Daemon)(host="127.0.0.1", port=0)
         addr = daemon.transportServer.sock.getsockname()
         obj = CtxObj(sched)
         uri = daemon.register(obj, "o")
@@ -421,11 +440,15 @@ class CtxWorld(World):
                 ctx.probe("prop")
         ctx.nontrivial = len(served_clients) >= 2 and setters > 0
         # ---- (2) every server->client message carries only annotations set by the call it answers
+        def own_key(k, v):
+            """the daemon-wide annotation of the application's Daemon.annotations() hook is legitimate on every message"""
+            return bool(plan.get("daemon_ann")) and k == DAEMON_KEY and bytes(v) == DAEMON_VAL
+
         replies = {}
         for m in net.messages:
             if m["dir"] != "s2c":
                 continue
-            custom = {k: v for k, v in m["ann"].items() if k not in PYRO_KEYS}
+            custom = {k: v for k, v in m["ann"].items() if k not in PYRO_KEYS and not own_key(k, v)}
             allowed = {}
             what = {N.MSG_CONNECTOK: "CONNECTOK", N.MSG_CONNECTFAIL: "CONNECTFAIL", N.MSG_PING: "PING", N.MSG_RESULT: "RESULT"}.get(m["type"], str(m["type"]))
             if m["type"] == N.MSG_RESULT:
@@ -455,7 +478,7 @@ class CtxWorld(World):
         for tok, rec in ops.items():
             if rec["kind"] == "ping" or rec["outcome"].startswith("comm"):
                 continue
-            seen = {k: v for k, v in (rec["seen"] or {}).items() if k not in PYRO_KEYS}
+            seen = {k: v for k, v in (rec["seen"] or {}).items() if k not in PYRO_KEYS and not own_key(k, v)}
             if rec["kind"] == "ow":
                 expect = {}
             else:
@@ -466,7 +489,7 @@ class CtxWorld(World):
                 ctx.violate("client-sees-foreign-annotation", rec["kind"], "after %s(%s) the client sees %r, its reply carried %r"
                             % (rec["kind"], tok, seen, expect))
         for conn, seen in handshakes:
-            seen = {k: v for k, v in seen.items() if k not in PYRO_KEYS}
+            seen = {k: v for k, v in seen.items() if k not in PYRO_KEYS and not own_key(k, v)}
             if seen:
                 ctx.violate("client-sees-foreign-annotation", "handshake", "after connecting (connection %d) the client sees %r" % (conn, seen))
 
